@@ -47,9 +47,16 @@ type series struct {
 	Sum          float64         `json:"sum,omitempty"`
 	SumSquares   float64         `json:"sum_squares,omitempty"`
 	Pcts         []pctVal        `json:"pcts,omitempty"`
-	IsHist       bool            `json:"is_hist,omitempty"`
-	Hist         map[string]int  `json:"hist,omitempty"` // threshold (formatted 'f', "+Inf") -> cumulative count
-	histF        map[float64]int // same, keyed by the float
+	// IsHist / Hist / histF are the STATEMENT's view of a histogram timer, computed by histModel from the
+	// gsd_histogram: tag, the values and the configured bucket limit - never from the flushed struct.
+	IsHist   bool            `json:"is_hist,omitempty"`
+	Hist     map[string]int  `json:"hist,omitempty"` // threshold (formatted 'f', "+Inf") -> cumulative count
+	histF    map[float64]int // same, keyed by the float
+	// RealHistNil / RealHist are what the real aggregator left in Timer.Histogram; only buildMap reads them, so
+	// that the backends see the flushed struct exactly as it is.
+	RealHistNil bool           `json:"real_hist_nil,omitempty"`
+	RealHist    map[string]int `json:"real_hist,omitempty"`
+	realHistF   map[float64]int
 	Timestamp    int64           `json:"-"`
 	TagsKey      string          `json:"-"`
 }
@@ -61,8 +68,48 @@ func fmtBound(b float64) string {
 	return strconv.FormatFloat(b, 'f', -1, 64)
 }
 
+// histModel is the statement about histogram timers: a timer carrying a gsd_histogram:<t1>_<t2>_... tag reports
+// per-bucket cumulative counts only - the first `limit` parsable thresholds plus +Inf, count(bucket) = number of
+// values <= threshold - and nothing at all when the limit is 0.
+func histModel(s *series, limit uint32) {
+	const prefix = "gsd_histogram:"
+	tag := ""
+	for _, t := range s.Tags {
+		if strings.HasPrefix(t, prefix) {
+			tag = t
+			break
+		}
+	}
+	if tag == "" {
+		return
+	}
+	s.IsHist = true
+	s.Hist = map[string]int{}
+	s.histF = map[float64]int{}
+	if limit == 0 {
+		return
+	}
+	var bounds []float64
+	for _, f := range strings.Split(tag[len(prefix):], "_") {
+		if b, err := strconv.ParseFloat(f, 64); err == nil && uint32(len(bounds)) < limit {
+			bounds = append(bounds, b)
+		}
+	}
+	bounds = append(bounds, math.Inf(1))
+	for _, b := range bounds {
+		n := 0
+		for _, v := range s.Values {
+			if v <= b {
+				n++
+			}
+		}
+		s.Hist[fmtBound(b)] = n
+		s.histF[b] = n
+	}
+}
+
 // snapshot flattens a flushed map, ordered deterministically.
-func snapshot(mm *gostatsd.MetricMap) []*series {
+func snapshot(mm *gostatsd.MetricMap, histLimit uint32) []*series {
 	var out []*series
 	mm.Counters.Each(func(name, tk string, c gostatsd.Counter) {
 		out = append(out, &series{Type: 1, Name: name, Tags: append([]string(nil), c.Tags...), Source: string(c.Source), Counter: c.Value, PerSecond: c.PerSecond, Timestamp: int64(c.Timestamp), TagsKey: tk})
@@ -74,15 +121,16 @@ func snapshot(mm *gostatsd.MetricMap) []*series {
 		for _, p := range t.Percentiles {
 			s.Pcts = append(s.Pcts, pctVal{Str: p.Str, Float: p.Float})
 		}
+		s.RealHistNil = t.Histogram == nil
 		if t.Histogram != nil {
-			s.IsHist = true
-			s.Hist = map[string]int{}
-			s.histF = map[float64]int{}
+			s.RealHist = map[string]int{}
+			s.realHistF = map[float64]int{}
 			for b, n := range t.Histogram {
-				s.Hist[fmtBound(float64(b))] = n
-				s.histF[float64(b)] = n
+				s.RealHist[fmtBound(float64(b))] = n
+				s.realHistF[float64(b)] = n
 			}
 		}
+		histModel(s, histLimit)
 		out = append(out, s)
 	})
 	mm.Gauges.Each(func(name, tk string, g gostatsd.Gauge) {
@@ -126,9 +174,9 @@ func buildMap(ss []*series) *gostatsd.MetricMap {
 			for _, p := range s.Pcts {
 				t.Percentiles = append(t.Percentiles, gostatsd.Percentile{Float: p.Float, Str: p.Str})
 			}
-			if s.IsHist {
+			if !s.RealHistNil {
 				t.Histogram = map[gostatsd.HistogramThreshold]int{}
-				for b, n := range s.histF {
+				for b, n := range s.realHistF {
 					t.Histogram[gostatsd.HistogramThreshold(b)] = n
 				}
 			}
@@ -251,7 +299,7 @@ func sixDecimals(rng *rand.Rand) float64 {
 }
 
 var sources = []string{"", "", "10.0.0.1", "10.0.0.2", "host-a", "ns/pod-1", "i-0abc"}
-var histTags = []string{"gsd_histogram:1_5_10", "gsd_histogram:0.5_2.5_100_1000", "gsd_histogram:-1_0_250.75", "gsd_histogram:10"}
+var histTags = []string{"gsd_histogram:1_5_10", "gsd_histogram:0.5_2.5_100_1000", "gsd_histogram:-1_0_250.75", "gsd_histogram:10", "gsd_histogram:-1000_-10_0_10_1000_100000"}
 var pctLists = [][]float64{nil, {90}, {50, 99}, {95, -10}, {99.9}}
 
 func randomMask(rng *rand.Rand) gostatsd.TimerSubtypes {
@@ -286,10 +334,9 @@ func (d dpoint) metric() *gostatsd.Metric {
 // newWorkload generates datapoints, pushes them through the real MetricMap.Receive / MetricAggregator and snapshots
 // the flushed map.
 func newWorkload(rng *rand.Rand) *workload {
-	w := &workload{Percentiles: pctLists[rng.Intn(len(pctLists))], Disabled: randomMask(rng), HistLimit: uint32(1 + rng.Intn(6)), Rounds: 1}
-	if rng.Intn(8) == 0 {
-		w.HistLimit = 1000
-	}
+	w := &workload{Percentiles: pctLists[rng.Intn(len(pctLists))], Disabled: randomMask(rng), Rounds: 1}
+	// bucket limit: 0, 1, 2, the default (MaxUint32) and a few in between
+	w.HistLimit = []uint32{0, 0, 1, 1, 2, 2, math.MaxUint32, math.MaxUint32, 3, 5}[rng.Intn(10)]
 	w.IntervalS = []float64{1, 10, 0.5, 60}[rng.Intn(4)]
 	if rng.Intn(4) == 0 {
 		w.Rounds = 2
@@ -383,7 +430,7 @@ func newWorkload(rng *rand.Rand) *workload {
 			if edgeTag != "" && round == 0 && i == 0 {
 				d.tags = append(d.tags, edgeTag) // the family always carries its tag on at least one series
 			}
-			if d.typ == 2 && rng.Intn(4) == 0 {
+			if d.typ == 2 && rng.Intn(3) == 0 {
 				d.tags = append(d.tags, histTags[rng.Intn(len(histTags))])
 			}
 			d.source = sources[rng.Intn(len(sources))]
@@ -442,7 +489,7 @@ func newWorkload(rng *rand.Rand) *workload {
 		}
 	}
 	agg.Process(func(mm *gostatsd.MetricMap) {
-		w.Series = snapshot(mm)
+		w.Series = snapshot(mm, w.HistLimit)
 	})
 	return w
 }
@@ -456,4 +503,37 @@ func (w *workload) typeMix() (mix int, hist bool) {
 		}
 	}
 	return
+}
+
+// histClass describes the histogram side of the state for coverage accounting: bucket limit class, and whether a
+// histogram timer with data / an idle one is present.
+func (w *workload) histClass() string {
+	data, idle := false, false
+	for _, s := range w.Series {
+		if s.IsHist {
+			if len(s.Values) > 0 {
+				data = true
+			} else {
+				idle = true
+			}
+		}
+	}
+	if !data && !idle {
+		return "-"
+	}
+	l := "n"
+	switch w.HistLimit {
+	case 0, 1, 2:
+		l = strconv.Itoa(int(w.HistLimit))
+	case math.MaxUint32:
+		l = "def"
+	}
+	d, i := 0, 0
+	if data {
+		d = 1
+	}
+	if idle {
+		i = 1
+	}
+	return "L" + l + "/d" + strconv.Itoa(d) + "/i" + strconv.Itoa(i)
 }
